@@ -168,6 +168,47 @@ def run(ctx):
             unexpl.append(({"name": "Content-Disposition", "value": l}, "a disposition copied through the typed reader does not come out as one clean field: %r" % blk[:120]))
         elif dec != "some\t%s\t%s" % (hx(U(l.split("\t")[1])), hx(want_name)):
             unexpl.append(({"name": "Content-Disposition", "value": l}, "a disposition copied through the typed reader no longer carries its file name: the RFC 2231 reader recovers %s" % dec[:100]))
+    # ---- which fields a built message carries (C02_required_fields): builder call sequences x the three ways to give a body; the names of
+    #      the header section of the real message against the model's (Model/BuilderFields.v), then the part's own fields
+    TOK = ["from", "to", "cc", "bcc", "reply_to", "sender", "date", "subject", "mimeversion", "keepbcc", "envelope"] + \
+          ["hdr:" + hx(n) for n in (b"X-One", b"x-one", b"X-Two", b"SUBJECT", b"mime-version", b"Content-Transfer-Encoding")]
+    fseqs = [[], ["from"], ["from", "to"], ["to"], ["from", "from", "to"], ["from", "from", "sender", "to"], ["from", "bcc"], ["from", "bcc", "keepbcc"], ["from", "to", "date", "date"],
+             ["from", "to", "mimeversion"], ["from", "to", "hdr:" + hx(b"mime-version")], ["from", "to", "subject", "hdr:" + hx(b"SUBJECT")], ["from", "envelope"], ["from", "to", "hdr:" + hx(b"X-One"), "hdr:" + hx(b"x-one")]]
+    for _ in range(400 if ctx.tier == "quick" else 6000):
+        q = ["from"] if rng.random() < 0.8 else []
+        q += [rng.choice(TOK) for _ in range(rng.randint(0, 9))]
+        if rng.random() < 0.7:
+            q.insert(rng.randrange(len(q) + 1), rng.choice(["to", "cc", "bcc"]))
+        fseqs.append(q)
+    flines, fmeta = [], []
+    for q in fseqs:
+        for kind in ("raw", "single", "multi"):
+            flines.append("builder.fields\t%s\t%s" % (";".join(q), kind)); fmeta.append((q, kind))
+    fi = run_impl(flines)
+    fm = run_model(["builder.fields\t%s\t%s" % (";".join(q), "raw" if kind == "raw" else "mime") for q, kind in fmeta])
+    ctx.count(len(flines))
+    fbad, fdiff, fbuilt = [], [], 0
+    for (q, kind), ri, rm in zip(fmeta, fi, fm):
+        nfrom, has_rcpt = q.count("from"), any(x in q for x in ("to", "cc", "bcc"))
+        want_err = "MissingFrom" if nfrom == 0 else ("TooManyFrom" if nfrom > 1 and "sender" not in q else ("MissingTo" if not has_rcpt and "envelope" not in q else None))
+        if ri.startswith("err\t") or want_err:
+            if not (want_err and ri == "err\t" + want_err):
+                fbad.append((q, kind, "the builder answered %s, expected %s" % (ri[:60], want_err or "a message")))
+            continue
+        fbuilt += 1
+        names = [x.lower() for x in ri.split("\t")[1].split(",")]
+        model = [unhx(x).decode().lower() for x in rm.split("|") if x] + {"raw": [], "single": ["content-type", "content-transfer-encoding"], "multi": ["content-type"]}[kind]
+        if names != model:
+            fdiff.append((q, kind, "fields of the built message %s, the model gives %s" % (names, model)))
+        top = names[:len(names) - {"raw": 0, "single": 2, "multi": 1}[kind]]
+        if top.count("date") != 1 or top.count("from") != 1 or (kind != "raw" and top.count("mime-version") != 1) or \
+                (kind == "raw" and top.count("mime-version") != (1 if "mimeversion" in q or "hdr:" + hx(b"mime-version") in q else 0)) or len(set(top)) != len(top):
+            fbad.append((q, kind, "required fields: %s" % top))
+    ctx.cov["correspondence_builder_fields"] = {"call_sequences": len(fseqs), "bodies": ["raw", "singlepart", "multipart"], "built": fbuilt, "disagreements": len(fdiff)}
+    if fbad:
+        ctx.violation({"kind": "oracle", "entry": "MessageBuilder: fields of the built message", "ops": fbad[0][0], "body": fbad[0][1], "what": fbad[0][2], "failures": len(fbad)})
+    elif fdiff:
+        ctx.violation({"kind": "correspondence", "fn": "builder.fields", "ops": fdiff[0][0], "body": fdiff[0][1], "what": fdiff[0][2], "disagreements": len(fdiff)}, nofail=True)
     # a message whose body is empty: the header section is still followed by one empty line
     el = ["body.part\tmsg\t%s\t%s\t-" % (pre, kind) for pre in ("-", "7bit", "base64", "quoted-printable") for kind in ("str", "vec", "body:7bit", "body:base64")]
     for line, r in zip(el, run_impl(el)):
